@@ -69,6 +69,10 @@ def step (w : World) (toks : List String) : World × String :=
     match i.toNat?, b.toNat?, ip.toNat?, port.toNat? with
     | some i, some b, some ip, some port => (w.remap i b ⟨ip, port⟩, "ok")
     | _, _, _, _ => bad
+  | ["relan", i, b, lip, lport, ip, port] =>
+    match i.toNat?, b.toNat?, lip.toNat?, lport.toNat?, ip.toNat?, port.toNat? with
+    | some i, some b, some lip, some lport, some ip, some port => (w.relan i b ⟨lip, lport⟩ ⟨ip, port⟩, "ok")
+    | _, _, _, _, _, _ => bad
   | ["remove", i, k] =>
     match i.toNat?, k.toNat? with
     | some i, some k => (w.removePeerAt i k, "ok")
